@@ -941,7 +941,7 @@ func (w *World) genClaimOp(a int) genOp {
 			return err
 		}}
 	case 1:
-		return genOp{name: "ClaimReward", signer: a, run: func(ctx sdk.Context) error {
+		return genOp{name: "ClaimReward", signer: a, params: []*big.Int{new(big.Int).SetUint64(id)}, run: func(ctx sdk.Context) error {
 			_, err := w.disputeMS.ClaimReward(ctx, &disputetypes.MsgClaimReward{CallerAddress: addr, DisputeId: id})
 			return err
 		}}
